@@ -113,6 +113,7 @@ def c12(ctx):
                 k = '%s|fresh%d' % (hid, i)
                 cases.append({'pkg': r['id'], 'k': k, 'entry': 'R0', 'memo': True, 'u': 32, 'size': 0, 'b64': L.b64(s)})
                 lst.append({'k': k, 'entry': 'R0', 'memo': True, 'bytes': L.bytes_of(s), 'spec': True})
+            lst.append({'k': hid + '|mhist', 'entry': 'R0', 'memo': True, 'hist': [L.bytes_of(s) for s in hist]})
             meta[hid] = (r, hist)
         mreq[r['id']] = {'id': r['id'], 'tree': x['tree'], 'opts': r['opts'], 'cases': lst}
     robs = M.run(cases)
@@ -120,7 +121,7 @@ def c12(ctx):
     for m in T.run_model('run', list(mreq.values())):
         for ob in m.get('obs', []):
             mobs[ob['k']] = ob
-    nsteps = nfail_then_ok = 0
+    nsteps = nfail_then_ok = nmodel_steps = 0
     for hid, (r, hist) in meta.items():
         ast = 'n' not in r['opts']
         fresh = [robs.get('%s|fresh%d' % (hid, i)) or {'v': 'missing'} for i in range(len(hist))]
@@ -134,6 +135,17 @@ def c12(ctx):
         for i in range(1, len(fresh)):
             if fresh[i - 1].get('v') == 'fail' and fresh[i].get('v') == 'ok':
                 nfail_then_ok += 1
+        # the Lean machine model run as ONE long-lived parser (St.reset between inputs, stale token buffer kept)
+        mh = (mobs.get(hid + '|mhist') or {}).get('steps')
+        if mh is None or len(mh) != len(hist):
+            ctx.add('model', 'T-run/model-history', 'the model produced no history for %s' % hid, {'grammar': r['text'], 'opts': r['opts'], 'history': hist})
+        else:
+            for i, mo in enumerate(mh):
+                nmodel_steps += 1
+                d = L.obs_equal(fresh[i], mo, ast)
+                if d:
+                    ctx.add('model', 'T-run/model-history', 'step %d of the reused MODEL parser (St.reset) differs from the real fresh parser on %s; history %r' % (i, d, hist),
+                            {'grammar': r['text'], 'opts': r['opts'], 'history': hist, 'step': i, 'fresh': fresh[i], 'model_reused': mo})
         for u in (16, 32, 64, 0):
             for size in ((0, 1, 32768) if ast else (0,)):
                 o = robs.get('%s|u%d|s%d' % (hid, u, size)) or {}
@@ -156,9 +168,10 @@ def c12(ctx):
         'rule': 'random well-formed grammars (default and -noast); histories of 6 inputs on one instance (repeated, shrinking, growing, failing then succeeding) '
                 'x U in {uint16,uint32,uint64,uint} x Size in {unset,1,32768}; every step compared with a fresh uint32 parser on that input alone '
                 '(verdict, tokens, tree, AST walk, action and state-change traces, error token and message), and the fresh parser with the PEG semantics; '
+                'the Lean machine model is run as one long-lived parser too (St.reset between inputs) and every step compared with the real fresh parser; '
                 'non-trivial = histories containing a failing parse directly followed by a succeeding one',
         'samples': [{'history': h, 'grammar': r['text']} for (r, h) in list(meta.values())[:2]],
-        'input_distribution': {'grammars': len(gs), 'histories': len(meta), 'steps': nsteps, 'fail_then_ok': nfail_then_ok},
+        'input_distribution': {'grammars': len(gs), 'histories': len(meta), 'steps': nsteps, 'fail_then_ok': nfail_then_ok, 'model_history_steps': nmodel_steps},
     })
     width_probe(ctx, T)
     L.cleanup()
